@@ -8,7 +8,7 @@ import (
 	"github.com/angelsolaorbaiceta/inkfem/structure"
 )
 
-var versionRegex = regexp.MustCompile(`(?:inkfem\s+v)(\d+)(?:[.])(\d+)`)
+var versionRegex = regexp.MustCompile(`^inkfem\s+v(\d+)[.](\d+)$`)
 
 // ParseVersionNumbers expectes the passed in string to follow the format "inkfem vM.m"
 // where "M" and "m" are the major and minor versions of the application.
